@@ -907,7 +907,7 @@ fn xorshift(s: &mut u64) -> u64 {
 }
 
 fn programs(ctx: &Ctx, env: &Env) {
-    use asm::{Access as A, Alu, Compute as C, Memory as M, Pred, Stack as S, TotalControlFlow as T};
+    use asm::{Access as A, Alu, Compute as C, Memory as M, Pred, Stack as S, StateRead as R, TotalControlFlow as T};
     let p = |w: Word| -> asm::Op { S::Push(w).into() };
     // ---- hand-written shapes
     let named: Vec<(&str, Vec<asm::Op>)> = vec![
@@ -925,12 +925,47 @@ fn programs(ctx: &Ctx, env: &Env) {
         ("compute-in-loop-down", vec![p(3), p(0), S::Repeat.into(), p(1), C::Compute.into(), S::Pop.into(), A::RepeatCounter.into(), p(1), M::Alloc.into(), M::Store.into(), C::ComputeEnd.into(), S::RepeatEnd.into(), p(4)]),
         ("loop-inside-compute", vec![p(2), C::Compute.into(), p(2), p(1), S::Repeat.into(), p(1), M::Alloc.into(), S::Pop.into(), S::RepeatEnd.into(), S::Pop.into(), C::ComputeEnd.into(), p(3)]),
         ("compute-reads-parent", vec![p(2), M::Alloc.into(), S::Pop.into(), p(11), p(0), M::Store.into(), p(12), p(1), M::Store.into(), p(2), C::Compute.into(), p(1), M::Alloc.into(), S::Pop.into(), asm::ParentMemory::Load.into(), p(0), M::Store.into(), C::ComputeEnd.into()]),
+        // resource limits reached through sequences of operations (buffer capacities grow by doubling underneath)
+        ("alloc-6000-1-5000", vec![p(6000), M::Alloc.into(), S::Pop.into(), p(1), M::Alloc.into(), S::Pop.into(), p(5000), M::Alloc.into()]),
+        ("alloc-10239-1-1", vec![p(10239), M::Alloc.into(), S::Pop.into(), p(1), M::Alloc.into(), S::Pop.into(), p(1), M::Alloc.into()]),
+        ("alloc-free-alloc", vec![p(8000), M::Alloc.into(), S::Pop.into(), p(100), M::Free.into(), p(10140), M::Alloc.into(), S::Pop.into(), p(1), M::Alloc.into()]),
+        ("alloc-5121-5119-1", vec![p(5121), M::Alloc.into(), S::Pop.into(), p(5119), M::Alloc.into(), S::Pop.into(), p(1), M::Alloc.into()]),
+        ("reserve-3000-1-1094", vec![p(3000), S::Reserve.into(), p(1), S::Reserve.into(), p(1090), S::Reserve.into(), p(1), p(2)]),
+        ("reserve-4094-then-pushes", vec![p(4093), S::Reserve.into(), p(1), p(2), p(3)]),
+        ("reserve-then-loadrange-exact-fill", vec![p(6), M::Alloc.into(), S::Pop.into(), p(4088), S::Reserve.into(), p(0), p(6), M::LoadRange.into(), p(1)]),
+        // the repeat stack limit holds in a compute child that inherited open loops (4100 Repeat ops driven by a counter on the stack)
+        ("repeat-limit-in-child-3-open", vec![p(1), p(1), S::Repeat.into(), p(1), p(1), S::Repeat.into(), p(1), p(0), S::Repeat.into(), p(1), C::Compute.into(), S::Pop.into(), p(4100),
+            p(1), p(1), S::Repeat.into(), p(1), Alu::Sub.into(), S::Dup.into(), p(0), Pred::Eq.into(), Pred::Not.into(), p(-11), S::Swap.into(), T::JumpIf.into(), S::Pop.into(), C::ComputeEnd.into()]),
+        ("repeat-limit-in-child-5-open", vec![p(1), p(1), S::Repeat.into(), p(1), p(1), S::Repeat.into(), p(1), p(0), S::Repeat.into(), p(2), p(0), S::Repeat.into(), p(2), p(1), S::Repeat.into(), p(2), C::Compute.into(), S::Pop.into(), p(4100),
+            p(1), p(1), S::Repeat.into(), p(1), Alu::Sub.into(), S::Dup.into(), p(0), Pred::Eq.into(), Pred::Not.into(), p(-11), S::Swap.into(), T::JumpIf.into(), S::Pop.into(), C::ComputeEnd.into()]),
+        ("repeat-limit-in-child", vec![p(1), p(1), S::Repeat.into(), p(1), C::Compute.into(), S::Pop.into(), p(4100),
+            p(1), p(1), S::Repeat.into(), p(1), Alu::Sub.into(), S::Dup.into(), p(0), Pred::Eq.into(), Pred::Not.into(), p(-11), S::Swap.into(), T::JumpIf.into(), S::Pop.into(), C::ComputeEnd.into()]),
+        ("repeat-limit-top-level", vec![p(4100), p(1), p(1), S::Repeat.into(), p(1), Alu::Sub.into(), S::Dup.into(), p(0), Pred::Eq.into(), Pred::Not.into(), p(-11), S::Swap.into(), T::JumpIf.into()]),
+        ("repeat-4096-exactly", vec![p(4096), p(1), p(1), S::Repeat.into(), p(1), Alu::Sub.into(), S::Dup.into(), p(0), Pred::Eq.into(), Pred::Not.into(), p(-11), S::Swap.into(), T::JumpIf.into()]),
         ("repeat-end-without-repeat", vec![p(1), S::RepeatEnd.into()]),
         ("counter-without-repeat", vec![A::RepeatCounter.into()]),
     ];
     for (name, ops) in &named {
         for limit in [u64::MAX, 1000, 20, 7] {
             check_program(ctx, &format!("vmops/program/{name}/{limit}"), ops, limit, env);
+        }
+    }
+    // ---- two state reads in one program: every ordered pair of the four reads with the same contract, key and count (own contract given as the external address too)
+    let rds = [R::KeyRange, R::KeyRangeExtern, R::PostKeyRange, R::PostKeyRangeExtern];
+    for (ci, caddr) in [env.contract_addr, [0x5A; 32]].iter().enumerate() {
+        for (ai, ra) in rds.iter().enumerate() {
+            for (bi, rb) in rds.iter().enumerate() {
+                for key in [7i64, 8] {
+                    let mut ops: Vec<asm::Op> = vec![p(40), M::Alloc.into(), S::Pop.into()];
+                    for (r, at) in [(ra, 0i64), (rb, 20), (ra, 30)] {
+                        if matches!(r, R::KeyRangeExtern | R::PostKeyRangeExtern) {
+                            ops.extend(be_words(caddr).into_iter().map(p));
+                        }
+                        ops.extend([p(key), p(1), p(1), p(at), (*r).into()]);
+                    }
+                    check_program(ctx, &format!("vmops/program/two-reads/{ci}/{ai}/{bi}/{key}"), &ops, u64::MAX, env);
+                }
+            }
         }
     }
     // ---- per-op cost functions (0, small, huge) x limits around every prefix sum, on programs with compute sections and loops
@@ -1004,10 +1039,46 @@ fn programs(ctx: &Ctx, env: &Env) {
     }
 }
 
+/// `ParentMemory` ops read the memory pushed last (the parent), whatever lies below it.
+fn parent_memory(ctx: &Ctx) {
+    use std::sync::Arc;
+    let mems: Vec<W> = vec![vec![], vec![5], vec![1, 2, 3], vec![9, 8, 7, 6, 5]];
+    for (oi, outer) in mems.iter().enumerate() {
+        for (ii, inner) in mems.iter().enumerate() {
+            for addr in [0i64, 1, 2, 3, 4, 5, -1] {
+                for size in [-1i64, 0, 1, 2, 3] {
+                    let id = format!("vmops/ParentMemory/{oi}/{ii}/{addr}/{size}");
+                    if !ctx.want(&id) {
+                        continue;
+                    }
+                    let pms = [Arc::new(Memory::try_from(outer.clone()).unwrap()), Arc::new(Memory::try_from(inner.clone()).unwrap())];
+                    let (op, s, want): (asm::ParentMemory, W, Option<W>) = if size < 0 {
+                        (asm::ParentMemory::Load, vec![42, addr], idx(addr).and_then(|a| inner.get(a)).map(|w| vec![42, *w]))
+                    } else {
+                        let w = idx(addr).and_then(|a| a.checked_add(size as usize).and_then(|e| inner.get(a..e)));
+                        (asm::ParentMemory::LoadRange, vec![42, addr, size], w.map(|ws| { let mut v = vec![42]; v.extend(ws); v }))
+                    };
+                    let got = std::panic::catch_unwind(|| {
+                        let mut st = Stack::try_from(s.clone()).unwrap();
+                        essential_vm::sync::step_op_parent_memory(op, &mut st, &pms).ok().map(|_| W::from(st))
+                    });
+                    match got {
+                        Err(_) => ctx.fail(&id, "the VM never panics", format!("PANIC: {:?} stack {:?}", op, s)),
+                        Ok(g) if g == want => ctx.pass(),
+                        Ok(g) => ctx.fail(&id, "parent-memory reads return exactly the addressed words of the parent's memory (the one pushed last), out-of-range reads are errors",
+                            format!("{:?} stack {:?} with parent memories [outer {:?}, parent {:?}]: VM {:?} but specification {:?}", op, s, outer, inner, g, want)),
+                    }
+                }
+            }
+        }
+    }
+}
+
 pub fn run(ctx: &Ctx) {
     use asm::{Access as A, Alu, Crypto, Memory as M, Pred, Stack as S, StateRead as R, TotalControlFlow as T};
     let env = env();
     programs(ctx, &env);
+    parent_memory(ctx);
     let pool: W = vec![
         0, 1, 2, 3, -1, -2, -3, -4, 63, 64, 65, 4095, 4096, Word::MIN, Word::MAX, Word::MIN + 1, -64,
         // half-word boundaries, the integer square root of 2^63, a shift amount whose low 32 bits look valid
@@ -1156,7 +1227,7 @@ pub fn run(ctx: &Ctx) {
     for (ri, r) in [R::KeyRange, R::KeyRangeExtern, R::PostKeyRange, R::PostKeyRangeExtern].into_iter().enumerate() {
         for (ki, key) in keys.iter().enumerate() {
             for nk in [0i64, 1, 2, 3, -1] {
-                for addr in [0i64, 1, 5, 12, -1, Word::MAX, Word::MAX - 1, Word::MAX - 3] {
+                for addr in [0i64, 1, 5, 12, -1, Word::MAX, Word::MAX - 1, Word::MAX - 2, Word::MAX - 3, Word::MAX - 4, Word::MAX - 5, Word::MAX - 6, Word::MAX - 7, Word::MAX - 9, Word::MAX - 12] {
                     for msize in [0usize, 6, 14] {
                         let mut s: W = vec![33];
                         if ri % 2 == 1 {
@@ -1357,6 +1428,12 @@ pub fn run(ctx: &Ctx) {
     for len in [0i64, 1, 7, 8, 9, 16, 17, 24, -1, 25, 100] {
         let s: W = vec![5, 0x0102030405060708, -2, 0x1122334455667788, len];
         check(ctx, &format!("vmops/Sha256/{len}"), Crypto::Sha256.into(), &s, &[], &env);
+    }
+    // long inputs (up to the whole stack)
+    for (words, len) in [(64usize, 512i64), (129, 1025), (1024, 8192), (1025, 8193), (1152, 9216), (1153, 9217), (2000, 15_999), (4094, 32_752), (4094, 32_745), (100, 801)] {
+        let mut s: W = (0..words as Word).map(|i| i.wrapping_mul(0x0101_0101_0101_0101) ^ 0x55).collect();
+        s.push(len);
+        check(ctx, &format!("vmops/Sha256/long/{words}/{len}"), Crypto::Sha256.into(), &s, &[], &env);
     }
     // ---- Repeat / RepeatEnd / RepeatCounter: the counter values observed by the loop body
     for nrep in [-1i64, 0, 1, 2, 3, 5] {
